@@ -594,7 +594,9 @@ def compile_deftype(compiler, expr, root, tp, name, value):
     return asty.TypeAlias(expr,
        name = asty.Name(name, id = mangle(name), ctx = ast.Store()),
        value = compiler.compile(value).force_expr,
-        **digest_type_params(compiler, tp))
+       # Unlike `FunctionDef` and `ClassDef`, a `TypeAlias` can't be
+       # unparsed without this field.
+       type_params = digest_type_params(compiler, tp).get("type_params", []))
 
 
 @pattern_macro(["global", "nonlocal"], [many(SYM)])
